@@ -22,7 +22,9 @@ func finalizeOutput(obj any) any {
 
 func finalizeMap(obj map[string]any) map[string]any {
 	newObj := make(map[string]any, len(obj))
-	for k, v := range obj {
+	// Sorted so that keys which collide after unescaping ("A$$B" and "A$B")
+	// resolve the same way on every run.
+	for k, v := range sortedMap(obj) {
 		newObj[finalizeString(k)] = finalizeOutput(v)
 	}
 
